@@ -3,7 +3,7 @@ CONSTANTS
   Worlds <- WorldsBasic
   Agreed <- AgreedBasic
   MaxTick = 2
-  MaxInFlight = 3
+  MaxInFlight = 2
   MaxAcks = 1
   MaxFaults = 1
 VIEW View
